@@ -122,8 +122,9 @@ def spaces(ctx):
     tabs = list(gen.d_line(T, 3, final_newline=(True,))) + gen.sample(list(gen.d_line(T, 4, final_newline=(True,))), 6000, 13)
     tabs = [d for d in tabs if "\t" in d]
     if ctx.tier == "quick":
+        # W=3 below: every 3-line document that ends in a setext underline candidate, and a sample of the others
         key = [d for d in tabs if d.count("\n") <= 3 and any(t in d for t in ("- ```", "> ```", "1. ```"))]      # a fence opened inside a container, a tab somewhere
-        return {"tabs<=4": list(gen.uniq(key + gen.sample(tabs, 800, ctx.seed + 3))), "W<=2": d2, "W=3": gen.sample(d3, 5000, ctx.seed), "W=4": gen.sample(d4, 1500, ctx.seed + 1), "V_all<=3": gen.sample(va, 2500, ctx.seed + 2)}
+        return {"tabs<=4": list(gen.uniq(key + gen.sample(tabs, 800, ctx.seed + 3))), "W<=2": d2, "W=3": list(gen.uniq([d for d in d3 if d.endswith("\n===\n") or d.endswith("\n---\n")] + gen.sample(d3, 3000, ctx.seed))), "W=4": gen.sample(d4, 1500, ctx.seed + 1), "V_all<=3": gen.sample(va, 2500, ctx.seed + 2)}
     return {"tabs<=4": tabs, "W<=2": d2, "W=3": d3, "W=4": d4, "V_all<=3": va}
 
 
